@@ -5,6 +5,7 @@ CONSTANTS
   ExtraM = {"zz"}
   ExtraP = {"cmd"}
   CmdP = {"cmd"}
+  DescCmds = {"cmd", "stop", "_stop"}
   Wires = {"w1", "w2", "wbad"}
   ValidW = {"w1", "w2"}
   ENames = {"HardwareError", "Bogus"}
